@@ -85,7 +85,10 @@ def make_setting(kind, n_rep=2, seed_data=777, seed_qop=888):
         estimators=[LossMinimizationEstimator(), LinearEstimator(), ProjectedLinearEstimator(mode_proj_order="eq_ineq")],
         eps_proj_physical_list=[1e-5] * 3, eps_truncate_imaginary_part_list=[1e-3] * 3,     # deliberately unequal
         algo_list=[(PGDB(), po), (None, None), (None, None)],
-        loss_list=[(SE(), SEO(os.environ.get("C15_LSQ_MODE", "inverse_sample_covariance"))), (None, None), (None, None)],
+        # data-dependent weights for the state / POVM scenarios; identity weights for the gate / measurement-process scenarios of the
+        # thorough tier (one covariance-weighted measurement-process flow takes two minutes)
+        loss_list=[(SE(), SEO(os.environ.get("C15_LSQ_MODE", "inverse_sample_covariance" if kind in ("state", "povm") else "identity"))),
+                   (None, None), (None, None)],
         parametrizations=[True, True, True], c_sys=c)
 
 
